@@ -74,6 +74,11 @@ def run(ctx):
               only={DI: ('DWARFInfo._parse_CU', 'DWARFInfo._parse_TU', 'DWARFInfo._cached_CU', 'DWARFInfo.get_abbrev', 'DWARFInfo.get_string',
                          'DWARFInfo.get_addr', 'DWARFInfo.get_CU', 'DWARFInfo.get_DIE', 'DWARFInfo.iter_', 'DWARFInfo._parse_debug_types',
                          'DWARFInfo.get_TU')})
+    # enumeration answers must not come out of a half-filled memo (shared with C10)
+    from sa import partial
+    ctx.rule('J-PARTIAL', 'the entries of a unit are never served from a container that was filled between yields or one entry per query')
+    ctx.guard('J-PARTIAL', 'partial containers', partial.check_partial, ctx, w, 'J-PARTIAL', [DIE, CU, TU, 'dwarf/abbrevtable.py', DI])
+    ctx.floor('J-PARTIAL', 1)
     ctx.guard('G-LIT', 'literals', literals.glit, ctx, w, [DIE, CU, TU, 'dwarf/abbrevtable.py'])
     ctx.floor('G-LIT', 60)
 
